@@ -28,11 +28,20 @@ theorem hdrBlock_isHdr (name : Bytes) (mode uid gid size : Nat) (mtime : Int) (t
     rw [blk_size name mode uid gid size mtime tf linkname maj min hn hl]
     exact readNumber_writeNumber12 size hs
 
+/-- `sqfs_istream_skip` over bytes that are there -/
+theorem istreamSkip_exact (z s' : Bytes) (k : Nat) (hk : z.length = k) : istreamSkip (z ++ s') k = some s' := by
+  unfold istreamSkip
+  have : ¬ (z ++ s').length < k := by simp [hk]
+  rw [if_neg this, List.drop_left' hk]
+
+theorem istreamSkip_zero (s : Bytes) : istreamSkip s 0 = some s := by
+  simp [istreamSkip]
+
 theorem recordToMemory_exact (p s' : Bytes) :
     recordToMemory (p ++ (zeros (padding p.length) ++ s')) p.length = some (p, s') := by
   unfold recordToMemory
   have : ¬ (p ++ (zeros (padding p.length) ++ s')).length < p.length := by simp
-  rw [if_neg this, List.take_left' rfl, List.drop_left' rfl, List.drop_left' (zeros_length _)]
+  rw [if_neg this, List.take_left' rfl, List.drop_left' rfl, istreamSkip_exact _ _ _ (zeros_length _)]
 
 section steps
 variable (cfg : ReadCfg) (f : Nat) (H p s' : Bytes) (out : Decoded) (mask : Nat) (pz : Bool)
